@@ -15,6 +15,19 @@
 //! WS client: the raw soketto transport of jsonrpsee-client-transport with a dedicated reader task.
 //! Result: ws   {"replies": [hex | "TIMEOUT" | "CLOSED:<why>" ...] one per message sent, "log": [handler log]}
 //!         http {"status": n, "body": hex, "log": [...]}
+//!
+//! WS pipeline mode (the rejection under back-pressure): {"t":"ws", "mode":"pipeline", "buf": n | null, "rcvbuf": bytes,
+//!   "barrier": id, "settle": {"at": i, "log": n, "ms": m} | null, "msgs": [...]}
+//!   The server (every WS entry point) is built with `set_message_buffer_capacity(buf)`; the client socket gets a small
+//!   receive buffer (SO_RCVBUF = rcvbuf, default 4096) and its reader task does not read while the messages are written.
+//!   All messages are written back-to-back (with "settle": before message `at` is written the writer waits -- at most 5 s --
+//!   until the handler log has `log` entries, then `ms` milliseconds more, so that the responses produced so far have
+//!   filled the socket buffers and the connection's bounded queue); THEN the reader is released and every frame is read
+//!   until the reply with id `barrier` has arrived and (as many frames as messages have arrived | the connection has
+//!   been quiet for 1.5 s); without the barrier reply: quiet for 6 s or 30 s in total -> the marker "TIMEOUT" is appended.
+//!   Result: {"replies": [frame ...] in arrival order, "wrote": number of messages written, "stalled": bool (the
+//!   writer had not finished after 3 s: the reader was released anyway), "log": [...]}
+//!   frame = hex (<= 1024 bytes) | "L:<len>:<crc32 hex>:<hex of the first 96 bytes>" | "CLOSED:<why>" | "TIMEOUT" | "SENDERR:<k>:<why>"
 use std::convert::Infallible;
 use std::io::{BufRead, Write};
 use std::sync::{Arc, Mutex};
@@ -143,13 +156,16 @@ impl RpcServiceT for UserSvc {
 	}
 }
 
-fn config(rq: u32, rs: u32, subid: usize) -> ServerConfig {
-	ServerConfig::builder()
+fn config(rq: u32, rs: u32, subid: usize, buf: Option<u32>) -> ServerConfig {
+	let mut b = ServerConfig::builder()
 		.max_request_body_size(rq)
 		.max_response_body_size(rs)
 		.set_id_provider(FixedId(subid))
-		.set_batch_request_config(BatchRequestConfig::Unlimited)
-		.build()
+		.set_batch_request_config(BatchRequestConfig::Unlimited);
+	if let Some(n) = buf {
+		b = b.set_message_buffer_capacity(n.max(1));
+	}
+	b.build()
 }
 
 type Stopper = Box<dyn FnOnce() + Send>;
@@ -319,6 +335,192 @@ async fn run_ws(ep: &str, cfg: ServerConfig, methods: Methods, msgs: Vec<Vec<u8>
 	json!({"replies": replies, "extra": extra})
 }
 
+fn crc32(data: &[u8]) -> u32 {
+	static TABLE: std::sync::OnceLock<[u32; 256]> = std::sync::OnceLock::new();
+	let t = TABLE.get_or_init(|| {
+		let mut t = [0u32; 256];
+		for i in 0..256u32 {
+			let mut c = i;
+			for _ in 0..8 {
+				c = if c & 1 != 0 { 0xEDB88320 ^ (c >> 1) } else { c >> 1 };
+			}
+			t[i as usize] = c;
+		}
+		t
+	});
+	let mut c = 0xFFFF_FFFFu32;
+	for b in data {
+		c = t[((c ^ *b as u32) & 0xFF) as usize] ^ (c >> 8);
+	}
+	c ^ 0xFFFF_FFFF
+}
+
+fn frame_repr(b: &[u8]) -> String {
+	if b.len() <= 1024 { hex(b) } else { format!("L:{}:{:08x}:{}", b.len(), crc32(b), hex(&b[..96])) }
+}
+
+/// id of a reply frame when it is a number (looks only at the head: the large frames are not parsed)
+fn frame_id(b: &[u8]) -> Option<u64> {
+	let head = &b[..b.len().min(64)];
+	let pat = b"\"id\":";
+	let p = head.windows(pat.len()).position(|w| w == pat)? + pat.len();
+	let digits: Vec<u8> = head[p..].iter().copied().take_while(|c| c.is_ascii_digit()).collect();
+	if digits.is_empty() { None } else { std::str::from_utf8(&digits).ok()?.parse().ok() }
+}
+
+struct Pipeline {
+	rcvbuf: u32,
+	barrier: Option<u64>,
+	settle: Option<(usize, usize, u64)>,
+}
+
+async fn run_ws_pipeline(ep: &str, cfg: ServerConfig, methods: Methods, log: Log, msgs: Vec<Vec<u8>>, p: Pipeline) -> Value {
+	let (addr, stop) = start_tcp(ep, cfg, methods).await;
+	let url = Url::parse(&format!("ws://{}", addr)).unwrap();
+	let fail = |stop: Stopper, why: String| {
+		stop();
+		json!({"replies": [why], "wrote": 0, "stalled": false})
+	};
+	let sock = match tokio::net::TcpSocket::new_v4() {
+		Ok(s) => s,
+		Err(e) => return fail(stop, format!("HANDSHAKE:socket {e}")),
+	};
+	// must be set before connect(): the window scale is negotiated in the SYN
+	let _ = sock.set_recv_buffer_size(p.rcvbuf);
+	let stream = match tokio::time::timeout(Duration::from_secs(5), sock.connect(addr)).await {
+		Ok(Ok(s)) => s,
+		Ok(Err(e)) => return fail(stop, format!("HANDSHAKE:connect {e}")),
+		Err(_) => return fail(stop, "HANDSHAKE:connect timeout".to_string()),
+	};
+	let _ = stream.set_nodelay(true);
+	let built = tokio::time::timeout(
+		Duration::from_secs(5),
+		WsTransportClientBuilder::default().max_request_size(u32::MAX).max_response_size(u32::MAX).build_with_stream(url, stream),
+	)
+	.await;
+	let (mut tx, mut rx) = match built {
+		Ok(Ok(pr)) => pr,
+		Ok(Err(e)) => return fail(stop, format!("HANDSHAKE:{e}")),
+		Err(_) => return fail(stop, "HANDSHAKE:timeout".to_string()),
+	};
+	// the reader does not touch the socket before it is released
+	let (go_tx, go_rx) = tokio::sync::oneshot::channel::<()>();
+	let (ftx, mut frx) = tokio::sync::mpsc::unbounded_channel::<(String, Option<u64>)>();
+	let reader = tokio::spawn(async move {
+		if go_rx.await.is_err() {
+			return;
+		}
+		loop {
+			match rx.receive().await {
+				Ok(ReceivedMessage::Text(s)) => {
+					let _ = ftx.send((frame_repr(s.as_bytes()), frame_id(s.as_bytes())));
+				}
+				Ok(ReceivedMessage::Bytes(b)) => {
+					let _ = ftx.send((frame_repr(&b), frame_id(&b)));
+				}
+				Ok(ReceivedMessage::Pong) => {}
+				Err(e) => {
+					let _ = ftx.send((format!("CLOSED:{e}"), None));
+					break;
+				}
+			}
+		}
+	});
+	// the writer: everything back-to-back
+	let total = msgs.len();
+	let wrote = Arc::new(std::sync::atomic::AtomicUsize::new(0));
+	let (wrote2, log2, settle) = (wrote.clone(), log.clone(), p.settle);
+	let (etx, mut erx) = tokio::sync::mpsc::unbounded_channel::<String>();
+	let mut writer = tokio::spawn(async move {
+		for (k, m) in msgs.into_iter().enumerate() {
+			if let Some((at, want, ms)) = settle {
+				if at == k {
+					let end = tokio::time::Instant::now() + Duration::from_secs(5);
+					while log2.lock().unwrap().len() < want && tokio::time::Instant::now() < end {
+						tokio::time::sleep(Duration::from_millis(2)).await;
+					}
+					tokio::time::sleep(Duration::from_millis(ms)).await;
+				}
+			}
+			let text = String::from_utf8(m).expect("generator emits UTF-8");
+			if let Err(e) = tx.send(text).await {
+				let _ = etx.send(format!("SENDERR:{k}:{e}"));
+				continue;
+			}
+			wrote2.fetch_add(1, std::sync::atomic::Ordering::SeqCst);
+		}
+		tx
+	});
+	// bounded: a writer that is itself stuck behind the unread responses must not hang the case
+	let mut tx_back = None;
+	let mut writer_done = false;
+	let stalled = match tokio::time::timeout(Duration::from_secs(3 + settle.map(|s| 5 + s.2 / 1000).unwrap_or(0)), &mut writer).await {
+		Ok(r) => {
+			tx_back = r.ok();
+			writer_done = true;
+			false
+		}
+		Err(_) => true,
+	};
+	let _ = go_tx.send(());
+	let mut replies: Vec<String> = Vec::new();
+	while let Ok(e) = erx.try_recv() {
+		replies.push(e);
+	}
+	let start = tokio::time::Instant::now();
+	let mut frames = 0usize;
+	let mut barrier_seen = p.barrier.is_none();
+	loop {
+		let complete = barrier_seen && frames >= total;
+		// complete: a short look for anything in excess; barrier answered: 1.5 s of silence; otherwise 6 s
+		let quiet = if complete { 60 } else if barrier_seen { 1500 } else { 6000 };
+		let left = Duration::from_secs(30).saturating_sub(start.elapsed());
+		if left.is_zero() {
+			replies.push("TIMEOUT".to_string());
+			break;
+		}
+		match tokio::time::timeout(Duration::from_millis(quiet).min(left), frx.recv()).await {
+			Ok(Some((f, id))) => {
+				let closed = f.starts_with("CLOSED");
+				replies.push(f);
+				if closed {
+					break;
+				}
+				frames += 1;
+				if id.is_some() && id == p.barrier {
+					barrier_seen = true;
+				}
+			}
+			Ok(None) => {
+				replies.push("CLOSED:reader-ended".to_string());
+				break;
+			}
+			Err(_) => {
+				if !barrier_seen {
+					replies.push("TIMEOUT".to_string());
+				}
+				break;
+			}
+		}
+	}
+	if !writer_done {
+		if let Ok(Ok(t)) = tokio::time::timeout(Duration::from_millis(200), &mut writer).await {
+			tx_back = Some(t);
+		} else {
+			writer.abort();
+		}
+	}
+	while let Ok(e) = erx.try_recv() {
+		replies.push(e);
+	}
+	if let Some(mut t) = tx_back {
+		let _ = tokio::time::timeout(Duration::from_millis(200), t.close()).await;
+	}
+	reader.abort();
+	stop();
+	json!({"replies": replies, "wrote": wrote.load(std::sync::atomic::Ordering::SeqCst), "stalled": stalled})
+}
+
 fn frames_body(frames: Vec<Vec<u8>>) -> BoxBody<Bytes, Infallible> {
 	let it = frames.into_iter().map(|f| Ok::<_, Infallible>(http_body::Frame::data(Bytes::from(f))));
 	BoxBody::new(StreamBody::new(futures_util::stream::iter(it)))
@@ -395,18 +597,28 @@ async fn run_case(line: &str) -> Value {
 	let subid = v["subid"].as_u64().unwrap_or(16) as usize;
 	let log: Log = Arc::new(Mutex::new(Vec::new()));
 	let methods = module(log.clone());
-	let cfg = config(rq, rs, subid);
+	let pipeline = v["mode"] == "pipeline";
+	let cfg = config(rq, rs, subid, if pipeline { v["buf"].as_u64().map(|n| n as u32) } else { None });
 	let list = |k: &str| -> Vec<Vec<u8>> {
 		v[k].as_array().map(|a| a.iter().map(|s| segs(s.as_str().unwrap())).collect()).unwrap_or_default()
 	};
 	let fut = async {
-		if v["t"] == "ws" {
+		if v["t"] == "ws" && pipeline {
+			let p = Pipeline {
+				rcvbuf: v["rcvbuf"].as_u64().unwrap_or(4096) as u32,
+				barrier: v["barrier"].as_u64(),
+				settle: v["settle"].as_object().map(|o| {
+					(o["at"].as_u64().unwrap_or(0) as usize, o["log"].as_u64().unwrap_or(0) as usize, o["ms"].as_u64().unwrap_or(0).min(2000))
+				}),
+			};
+			run_ws_pipeline(&ep, cfg, methods, log.clone(), list("msgs"), p).await
+		} else if v["t"] == "ws" {
 			run_ws(&ep, cfg, methods, list("msgs")).await
 		} else {
 			run_http(&ep, rq, cfg, methods, log.clone(), list("frames"), v["cl"].as_u64()).await
 		}
 	};
-	let mut out = match tokio::time::timeout(Duration::from_secs(40), fut).await {
+	let mut out = match tokio::time::timeout(Duration::from_secs(if pipeline { 55 } else { 40 }), fut).await {
 		Ok(o) => o,
 		Err(_) => json!({"error": "CASE-TIMEOUT"}),
 	};
